@@ -347,6 +347,34 @@ theorem invA_revoke {P : Proto} {limit pre : Nat} {c : Cfg} (h : InvA P limit pr
         · simp only [hin, if_false]; exact hst 4
   · exact invA_end h tid
 
+theorem invA_rmw {P : Proto} {limit pre : Nat} {c : Cfg} (h : InvA P limit pre c) (tid : Nat) (isRevoke : Bool)
+    (hsw : P.staleWrite = false) : InvA P limit pre (rmwStep P c tid isRevoke) := by
+  have hst : ∀ (k : Nat) (locks : List Nat), InvA P limit pre (stpCfg c tid { c.threads tid with pc := .noise k } locks) :=
+    fun k locks => invA_stp h tid _ _ (by intro s k hh; cases hh)
+  unfold rmwStep
+  split
+  · split
+    · split
+      · exact ⟨base_blk (c' := waitCfg c tid) h.base tid rfl rfl rfl rfl,
+          passedOkT_upd h.passed tid _ (by intro s k hh; cases hh)⟩
+      · exact hst _ _
+    · exact hst _ _
+  · exact ⟨base_blk (c' := blkCfg c tid) h.base tid rfl rfl rfl rfl, h.passed⟩
+  · exact hst _ _
+  · split
+    · unfold mrevokeWrite
+      split
+      · rename_i hin
+        refine ⟨base_unlock P (base_rel h.base tid 0 _ hin) _, ?_⟩
+        apply passedOk_unlock
+        unfold relCore
+        exact passedOkT_upd h.passed tid _ (by intro s k hh; cases hh)
+      · exact invA_done h tid
+    · unfold touchWrite
+      simp only [hsw, Bool.false_and, Bool.false_eq_true, if_false]
+      exact invA_done h tid
+  · exact h
+
 theorem invA_blk {P : Proto} {limit pre : Nat} {c : Cfg} (h : InvA P limit pre c) (tid : Nat) :
     InvA P limit pre (blkCfg c tid) :=
   ⟨base_blk h.base tid rfl rfl rfl rfl, h.passed⟩
@@ -442,7 +470,8 @@ theorem invA_noise {P : Proto} {limit pre : Nat} {c : Cfg} (h : InvA P limit pre
   · exact invA_done h tid
 
 theorem invA_step {P : Proto} {limit pre : Nat} {c : Cfg} (h : InvA P limit pre c) (tid : Nat)
-    (hfin : P.final ≠ .plain) (hcas : P.final = .cas → P.early = true) (hfu : P.fused = false) :
+    (hfin : P.final ≠ .plain) (hcas : P.final = .cas → P.early = true) (hfu : P.fused = false)
+    (hsw : P.staleWrite = false) :
     InvA P limit pre (stepThread P limit c tid) := by
   unfold stepThread
   split
@@ -487,6 +516,8 @@ theorem invA_step {P : Proto} {limit pre : Nat} {c : Cfg} (h : InvA P limit pre 
       exact h
     · exact invA_scan h tid _ _
     · exact h
+  · exact invA_rmw h tid false hsw
+  · exact invA_rmw h tid true hsw
   · split
     · split
       · exact invA_stp h tid _ _ (by intro s k hh; cases hh)
@@ -509,12 +540,13 @@ theorem invA_step {P : Proto} {limit pre : Nat} {c : Cfg} (h : InvA P limit pre 
     · exact h
 
 theorem invA_run {P : Proto} {limit pre : Nat} (hfin : P.final ≠ .plain) (hcas : P.final = .cas → P.early = true)
-    (hfu : P.fused = false) (σ : List Nat) (c : Cfg) (h : InvA P limit pre c) : InvA P limit pre (run P limit c σ) := by
+    (hfu : P.fused = false) (hsw : P.staleWrite = false) (σ : List Nat) (c : Cfg) (h : InvA P limit pre c) :
+    InvA P limit pre (run P limit c σ) := by
   induction σ generalizing c with
   | nil => exact h
   | cons t r ih =>
     simp only [run, List.foldl_cons]
-    exact ih _ (invA_step h t hfin hcas hfu)
+    exact ih _ (invA_step h t hfin hcas hfu hsw)
 
 theorem invA_init (P : Proto) (limit pre : Nat) (progs : List (Nat × List Op))
     (h : capOk P.zeroUnl limit pre = true) : InvA P limit pre (init pre progs) := by
